@@ -319,9 +319,15 @@ void SDMXylm_loop(int ngrids, double *ylm_lg, double *coords, int *ylm_atom_loc,
                     rnorm = sqrt(norm_rvec[0] * norm_rvec[0] +
                                  norm_rvec[1] * norm_rvec[1] +
                                  norm_rvec[2] * norm_rvec[2]);
-                    norm_rvec[0] /= rnorm;
-                    norm_rvec[1] /= rnorm;
-                    norm_rvec[2] /= rnorm;
+                    if (rnorm > 0) {
+                        norm_rvec[0] /= rnorm;
+                        norm_rvec[1] /= rnorm;
+                        norm_rvec[2] /= rnorm;
+                    } else {
+                        // grid point on the nucleus: r^l Y_lm does not depend
+                        // on the direction there (rpow = 0 for l > 0)
+                        norm_rvec[2] = 1.0;
+                    }
                     recursive_sph_harm(sblist[ia], norm_rvec, buf);
                     rpow = 1.0;
                     lm = 0;
